@@ -498,3 +498,45 @@ def int_unsafe(tok):
             except ValueError:
                 pass
     return False
+
+
+# --------------------------------------------------------------------------
+# independent re-statement of the naming rule (does not import invoke)
+# --------------------------------------------------------------------------
+def to_flag_py(name):
+    n = name.lstrip("_").rstrip("_").replace("_", "-")
+    return ("-" if len(n) == 1 else "--") + n
+
+
+def spellings_of_arg(a):
+    return [to_flag_py(n) for n in a["names"]]
+
+
+def arg_of_flag(spec, tok):
+    for a in spec["args"]:
+        if tok in spellings_of_arg(a):
+            return a
+    return None
+
+
+def takes_value(a):
+    return a["kind"] != "KBool" and not a["incrementable"]
+
+
+def body_of(argv):
+    return argv[:argv.index("--")] if "--" in argv else list(argv)
+
+
+def spec_by_name(specs, init_spec, name):
+    if name is None:
+        return init_spec
+    for c in specs:
+        if c["name"] == name:
+            return c
+    return None
+
+
+def has_digit_hazard(tok):
+    """tokens on which Python's int() and the model's parse_int could differ
+    (whitespace or underscore next to digits): never generated."""
+    return any(ch.isdigit() for ch in tok) and any(ch in " \t_" for ch in tok)
